@@ -31,6 +31,26 @@ fn main() {
                 println!("{:?} => {:?}", a, r.outcome);
             }
         }
+        "runfile" => {
+            let src = std::fs::read_to_string(&args[2]).unwrap();
+            let out = kv::kx::run(&src, &kv::kx::RunOpts { limit_ms: Some(2000), ..Default::default() });
+            println!("stdout:\n{}outcome: {:?}\nstacks: {:?}", out.stdout, out.outcome, out.stacks);
+        }
+        "verify" => {
+            let src = std::fs::read_to_string(&args[2]).unwrap();
+            let mut koto = koto::Koto::default();
+            match koto.compile(src.as_str()) {
+                Ok(chunk) => {
+                    let lines: Vec<&str> = src.lines().collect();
+                    println!("{}", koto::prelude::Chunk::instructions_as_string(chunk.clone(), &lines));
+                    match kv::props::c05::verify(&chunk) {
+                        Ok(s) => println!("verifier: ok ({} instructions, {} functions, {} jumps)", s.instructions, s.functions, s.jumps),
+                        Err((c, d)) => println!("verifier: {c}: {d}"),
+                    }
+                }
+                Err(e) => println!("compile error: {e}"),
+            }
+        }
         "bench" => {
             kv::core::install_panic_hook();
             let t=std::time::Instant::now();
